@@ -81,14 +81,18 @@ func (round *round3) Start() *tss.Error {
 			}
 
 			PjVs, err := crypto.UnFlattenECPoints(round.Params().EC(), flatPolyGs)
-			for i, PjV := range PjVs {
-				PjVs[i] = PjV.EightInvEight()
-			}
-
 			if err != nil {
 				ch <- vssOut{err, nil}
 				return
 			}
+			if len(PjVs) != round.Threshold()+1 {
+				ch <- vssOut{errors.New("wrong number of VSS commitments in the de-commitment"), nil}
+				return
+			}
+			for i, PjV := range PjVs {
+				PjVs[i] = PjV.EightInvEight()
+			}
+
 			proof, err := r2msg2.UnmarshalZKProof(round.Params().EC())
 			if err != nil {
 				ch <- vssOut{errors.New("failed to unmarshal schnorr proof"), nil}
